@@ -1,6 +1,26 @@
 """draft"""
 from pyvc.contract import contract, field_type
 from contracts import c16_controller  # noqa
+import ast
+
+from pyvc.libext import c16c_ext
+from pyvc.repo import get_repo
+
+c16c_ext.install()
+c16c_ext.INLINE_SUPER_INIT.add('biogeme.expressions.multiple_expressions.MultipleExpression.__init__')
+
+
+def _own_fields(*quals: str) -> list[str]:
+    """`self.<field>` for every attribute of self assigned in the named constructors (real AST): the frame of a
+    constructor is exactly the fields the constructor chain initialises."""
+    out = []
+    for q in quals:
+        fi = get_repo().function(q)
+        for n in ast.walk(fi.node):
+            if isinstance(n, ast.Attribute) and isinstance(n.ctx, ast.Store) and isinstance(n.value, ast.Name) \
+                    and n.value.id == 'self' and f'self.{n.attr}' not in out:
+                out.append(f'self.{n.attr}')
+    return out
 
 Q = 'biogeme.controller.'
 _N = 'self.specification_names'
@@ -28,9 +48,61 @@ contract(Q + 'Controller.__init__', 'C16',
          }}},
          )
 
+contract('biogeme.expressions.base_expressions.Expression.contains_catalog', 'C16', verify=False, pure=True,
+         types={'name': 'str'}, returns='bool', ensures={'any': 'True'})
+
+# validate_and_convert(e): for an Expression argument the code returns the argument itself (the two numeric branches
+# need isinstance against builtin number classes on an untyped value).  ASSUMED for Expression arguments.
+contract('biogeme.expressions.convert.validate_and_convert', 'C16', verify=False, pure=True,
+         types={'expression': 'biogeme.expressions.base_expressions.Expression'},
+         returns='biogeme.expressions.base_expressions.Expression',
+         ensures={'identity_on_expressions': 'result is expression'})
+
+field_type('Expression', 'children', 'list[biogeme.expressions.base_expressions.Expression]')
+field_type('NamedExpression', 'name', 'str')
+field_type('NamedExpression', 'expression', 'biogeme.expressions.base_expressions.Expression')
+field_type('MultipleExpression', 'name', 'str')
+
+_M = 'named_expressions'
+_MN = f'old({_M}[q].name)'
+_CN = 'controlled_by.specification_names'
+SAME_NAMES = (f"len({_CN}) == len({_M}) and forall(lambda q: {_CN}[q] == {_M}[q].name, 0, len({_M}))")
+CAT_RAISES = (
+    "';' in catalog_name or ':' in catalog_name or len(named_expressions) == 0 or "
+    f"exists(lambda q: {_M}[q].expression.contains_catalog(catalog_name), 0, len({_M})) or "
+    f"(controlled_by is None and (exists(lambda q: ';' in {_M}[q].name or ':' in {_M}[q].name, 0, len({_M})) or "
+    f"exists(lambda a: exists(lambda b: a < b and {_M}[a].name == {_M}[b].name, 0, len({_M})), 0, len({_M})))) or "
+    f"(controlled_by is not None and not ({SAME_NAMES}))")
+_SN = 'self.named_expressions'
+_SC = 'self.controlled_by'
 contract('biogeme.catalog.Catalog.__init__', 'C16',
          types={'catalog_name': 'str', 'named_expressions': 'list[biogeme.expressions.multiple_expressions.NamedExpression]',
                 'controlled_by': 'biogeme.controller.Controller | None'},
-         check_frame=False,
-         may_raise=['BiogemeError'],
-         ensures={'n': 'len(self.named_expressions) == len(named_expressions)'})
+         # typing of the inputs (annotations of the real signature) and the representation fact len >= 0
+         requires={'wf_list': 'len(named_expressions) >= 0',
+                   'typed_controller': 'controlled_by is None or isinstance(controlled_by, Controller)',
+                   'typed_members': f"forall(lambda q: has_class({_M}[q], 'NamedExpression'), 0, len({_M}))"},
+         modifies=_own_fields('biogeme.expressions.base_expressions.Expression.__init__',
+                              'biogeme.expressions.multiple_expressions.MultipleExpression.__init__',
+                              'biogeme.catalog.Catalog.__init__'),
+         raises={'BiogemeError': CAT_RAISES},
+         ensures={
+             'name': 'self.name == catalog_name',
+             'members_count': f'len({_SN}) == old(len({_M}))',
+             'members_names_in_order': f'forall(lambda q: {_SN}[q].name == {_MN}, 0, old(len({_M})))',
+             'members_expressions_in_order': f'forall(lambda q: {_SN}[q].expression is old({_M}[q].expression), 0, old(len({_M})))',
+             'fresh_controller': f"implies(controlled_by is None, {_SC}.controller_name == catalog_name and "
+                                 f"{_SC}.current_index == 0 and len({_SC}.controlled_catalogs) == 0)",
+             'shared_controller': f"implies(controlled_by is not None, {_SC} is controlled_by)",
+             # the clause the property rests on: position q of the controller is the member NAMED like it
+             'controller_names_are_member_names_in_order':
+                 f'len({_SC}.specification_names) == len({_SN}) and '
+                 f'forall(lambda q: {_SC}.specification_names[q] == {_SN}[q].name, 0, len({_SN}))',
+             'children_are_the_members': f'len(self.children) == old(len({_M})) and '
+                                         f'forall(lambda q: self.children[q] is old({_M}[q].expression), 0, old(len({_M})))',
+             'no_central_controller_yet': 'self.central_controller is None',
+         },
+         invariants={1: {'clauses': {
+             'appended': 'len(self.children) == _k',
+             'in_order': f'forall(lambda q: self.children[q] is old({_M}[q].expression), 0, _k)',
+         }}})
